@@ -56,6 +56,40 @@ Section Merge.
   Definition merge (objs : list bytes) : bytes * nat * bool :=
     let '(ls, ok) := merge_lines objs in (frame ls, length ls, ok).
 
+  (* the same loop under a bound on open descriptors: `free` readers may be
+     opened at this point (NewReader fails with EMFILE at 0).  The loop closes
+     each reader before it opens the next one, so `free` is the same for every
+     object; the events it produces are in [merge_events]. *)
+  Fixpoint merge_lines_fd (free : nat) (objs : list bytes) : list bytes * bool :=
+    match objs with
+    | [] => ([], true)
+    | o :: rest =>
+        match free with
+        | O => ([], false)
+        | S _ =>
+            match dec o with
+            | None => ([], false)
+            | Some r => let '(ls, ok) := merge_lines_fd free rest in (enc r :: ls, ok)
+            end
+        end
+    end.
+
+  Definition merge_fd (free : nat) (objs : list bytes) : bytes * nat * bool :=
+    let '(ls, ok) := merge_lines_fd free objs in (frame ls, length ls, ok).
+
+  (* reader events of handleMerge: true = NewReader, false = Close.  An object
+     that does not decode ends the loop; its reader is closed by the deferred
+     Close when the handler returns. *)
+  Fixpoint merge_events (objs : list bytes) : list bool :=
+    match objs with
+    | [] => []
+    | o :: rest =>
+        match dec o with
+        | None => [true; false]
+        | Some _ => true :: false :: merge_events rest
+        end
+    end.
+
   Fixpoint decode_all (ls : list bytes) : option (list R) :=
     match ls with
     | [] => Some []
@@ -68,6 +102,14 @@ Section Merge.
 
   Definition read_merged (file : bytes) : option (list R) := decode_all (unframe file).
 End Merge.
+
+(* open readers along a list of events: (peak, open at the end) *)
+Fixpoint open_peak (evs : list bool) (cur peak : nat) : nat * nat :=
+  match evs with
+  | [] => (peak, cur)
+  | true :: r => open_peak r (S cur) (Nat.max peak (S cur))
+  | false :: r => open_peak r (Nat.pred cur) peak
+  end.
 
 (* ------------------------------------------------------------------ *)
 (* 2. reports and grouping *)
